@@ -230,9 +230,8 @@ def addPayloadId (oti : Oti) (sbn esi sbl : Nat) : Rs (List Nat) :=
   else if oti.fecId = RAPTOR then .ok (beBytes 4 ((sbn % 2^16) * 2^16 + esi % 2^16))
   else .error "not a FECEncodingID"
 
-/-- `codec.get_fec_payload_id(pkt, oti)` on `pkt.data[alc_header_offset..payload_offset]` -/
-def getPayloadId (oti : Oti) (d : List Nat) (alcOff payOff : Nat) : Out PayloadId :=
-  (slice d alcOff payOff).bind fun p =>
+/-- the per-codec decoding of the payload-id bytes `p` (`data.try_into()` + field extraction) -/
+def pidOfBytes (oti : Oti) (p : List Nat) : Out PayloadId :=
   if oti.fecId = RS28US then
     if p.length ≠ 8 then .err else
     let v := beVal p
@@ -249,5 +248,9 @@ def getPayloadId (oti : Oti) (d : List Nat) (alcOff payOff : Nat) : Out PayloadI
     else if oti.fecId = RAPTORQ then .ok { sbn := v / 2^24, esi := v % 2^24, sbl := none }
     else if oti.fecId = RAPTOR then .ok { sbn := v / 2^16, esi := v % 2^16, sbl := none }
     else .panic "not a FECEncodingID"
+
+/-- `codec.get_fec_payload_id(pkt, oti)` on `pkt.data[alc_header_offset..payload_offset]` -/
+def getPayloadId (oti : Oti) (d : List Nat) (alcOff payOff : Nat) : Out PayloadId :=
+  (slice d alcOff payOff).bind (pidOfBytes oti)
 
 end Flute.Fti
